@@ -67,8 +67,8 @@ fn sanitize(s: &str, max: usize) -> String {
 const PRINT_MACROS: [&str; 4] = ["println", "eprintln", "print", "eprint"];
 
 // method -> renamed shim method (dispatch by shim trait on the receiver type)
-const SHIM_METHODS: [&str; 31] = [
-    "len",
+const SHIM_METHODS: [&str; 34] = [
+    "len", "read_until", "read_to_end", "read_exact",
     "to_string", "join", "trim", "parse", "replace", "to_lowercase", "to_uppercase", "starts_with",
     "ends_with", "contains", "split_once", "to_vec", "concat", "borrow", "eq", "as_ref", "as_bytes",
     "as_str", "extend", "copied", "strip_prefix", "strip_suffix", "trim_matches", "lines", "find",
@@ -368,7 +368,7 @@ impl Rw {
             {
                 let #v = &#e;
                 let mut #i: usize = 0;
-                let mut #r = None;
+                let mut #r = #v.rws_find_init();
                 while #i < #v.len() {
                     #lm
                     let #pat = &#v[#i];
